@@ -109,8 +109,9 @@ def get_type_table(ctx, F):
 
 
 def try_from_table(ctx, F):
-    b = F.one_body(r"^<selium_protocol::frame::Frame as core::convert::TryFrom<\(u8, bytes::bytes_mut::BytesMut\)>>::try_from$")
-    ctx.touch(b)
+    b0 = F.one_body(r"^<selium_protocol::frame::Frame as core::convert::TryFrom<\(u8, bytes::bytes_mut::BytesMut\)>>::try_from$")
+    ctx.touch(b0)
+    b = F.inlined(b0)           # helpers and `.map(Frame::Variant)`-style constructions are written out
     # the integer switch over the tag byte
     cands = []
     for i, bl in enumerate(b.blocks):
@@ -259,7 +260,8 @@ def d2(ctx, F):
         ctx.ok("C05.D2.bincode-config", "all %d bincode call sites in selium_protocol use the default-options free functions" % n)
 
     # encoder layout
-    enc = F.inlined(F.one_body(r"^<selium_protocol::codec::MessageCodec as tokio_util::codec::encoder::Encoder<selium_protocol::frame::Frame>>::encode$"), depth=0)
+    enc = F.inlined(F.one_body(r"^<selium_protocol::codec::MessageCodec as tokio_util::codec::encoder::Encoder<selium_protocol::frame::Frame>>::encode$"),
+                   keep=("selium_protocol::frame::Frame::get_length", "selium_protocol::frame::Frame::get_type", "selium_protocol::frame::Frame::write_to_bytes"))
     ctx.touch(enc)
     glc = enc.calls_to("selium_protocol::frame::Frame::get_length")
     gtc = enc.calls_to("selium_protocol::frame::Frame::get_type")
@@ -414,7 +416,8 @@ def d3(ctx, F):
 
 
 def d4(ctx, F):
-    dec = F.inlined(F.one_body(r"^<selium_protocol::codec::MessageCodec as tokio_util::codec::decoder::Decoder>::decode$"), keep=dec_keep(F))
+    # (the limit helper is looked through as well here: a validated-length newtype must not hide the length from the completeness test)
+    dec = F.inlined(F.one_body(r"^<selium_protocol::codec::MessageCodec as tokio_util::codec::decoder::Decoder>::decode$"), keep=(TRY_FROM,))
     consumers = [c for c in dec.calls() if is_consumer(c)]
     ctx.floor("C05.D4.consumers", len(consumers), 3)
     # blocks that build Ok(None)
@@ -599,6 +602,67 @@ def d5(ctx, F):
                     else:
                         other += 1
                 if inits == 1 and decs >= 1 and other == 0:
+                    okn = True
+    if not okn and hdr:
+        # countdown kept in a field of a private iterator struct: `if self.left == 0 { return None } self.left -= 1;`, with the struct
+        # built as `Iter { left: count, .. }` (helpers inlined, `&mut self` forwarded to the local that holds the struct)
+        def field_place(o):
+            if o.get("k") not in ("copy", "move"):
+                return None
+            pl_ = o["pl"]
+            if not [e for e in pl_["p"] if isinstance(e, int)]:
+                r_ = flow.root(r, o, through_calls=())
+                if r_[0] == "rv" and r_[1]["k"] == "use" and r_[1]["op"].get("k") in ("copy", "move"):
+                    pl_ = r_[1]["op"]["pl"]
+            ints = [e for e in pl_["p"] if isinstance(e, int)]
+            return (pl_["l"], tuple(ints)) if ints and all(e == "*" or isinstance(e, int) for e in pl_["p"]) else None
+        for i, bl in enumerate(r.blocks):
+            sc = flow.switch_condition(r, i)
+            if not (sc and sc.get("kind") == "cmp"):
+                continue
+            for o, z in ((sc["a"], sc["b"]), (sc["b"], sc["a"])):
+                fp = field_place(o) if flow.const_of(z) == 0 else None
+                if fp is None or len(fp[1]) != 1:
+                    continue
+                L, fi = fp[0], fp[1][0]
+                # the struct value: follow whole-local moves back to its literal
+                cur, agg = L, None
+
+                def sd(l_):
+                    ds_ = [d_ for d_ in r.defs().get(l_, []) if d_[0] in ("assign", "call")]       # (field stores are not definitions of the struct)
+                    return ds_[0] if len(ds_) == 1 else None
+                for _ in range(10):
+                    d = sd(cur)
+                    if d and d[0] == "call" and strip_generics(d[2].callee) == "core::iter::traits::collect::IntoIterator::into_iter" and d[2].args and \
+                            d[2].args[0].get("k") in ("copy", "move") and not d[2].args[0]["pl"]["p"]:
+                        cur = d[2].args[0]["pl"]["l"]          # (into_iter of an Iterator is the identity)
+                        continue
+                    if not (d and d[0] == "assign"):
+                        break
+                    if d[3]["k"] == "agg" and d[3].get("agg") == "adt":
+                        agg = d[3]
+                        break
+                    if d[3]["k"] == "use" and d[3]["op"].get("k") in ("copy", "move") and not d[3]["op"]["pl"]["p"]:
+                        cur = d[3]["op"]["pl"]["l"]
+                        continue
+                    break
+                if agg is None or fi >= len(agg["ops"]):
+                    continue
+                e = flow.root(r, agg["ops"][fi], through_calls=()) if agg["ops"][fi].get("k") in ("copy", "move") else None
+                init_ok = bool(e and e[0] == "call" and e[1] is hdr[0])
+                decs, other = 0, 0
+                for i2, j2, pl2, rv2, s2 in r.assigns():
+                    if pl2["l"] == L and [x for x in pl2["p"] if isinstance(x, int)] == [fi]:
+                        e2 = flow.root(r, rv2["op"], through_calls=()) if rv2["k"] == "use" and rv2["op"].get("k") in ("copy", "move") else None
+                        src = None
+                        if rv2["k"] == "use" and rv2["op"].get("k") in ("copy", "move") and rv2["op"]["pl"]["p"] == [0]:
+                            dd = flow.single_def(r, rv2["op"]["pl"]["l"])
+                            src = dd[3] if dd and dd[0] == "assign" else None
+                        if src and src["k"] == "binop" and src["op"] in ("SubWithOverflow", "Sub") and flow.const_of(src["b"]) == 1 and field_place(src["a"]) == (L, (fi,)):
+                            decs += 1
+                        else:
+                            other += 1
+                if init_ok and decs >= 1 and other == 0:
                     okn = True
     ctx.check(okn, "C05.D5.batch-count", "batch-reader-count", "the batch reader reads exactly the announced number of elements (loop bound = the count header, unmodified)",
               (rng[0][2]["span"] if rng else r.span))
